@@ -357,10 +357,13 @@ func (c *GroupCoordinator) LeaveGroup(ctx context.Context, req *kmsg.LeaveGroupR
 }
 
 func (c *GroupCoordinator) OffsetCommit(ctx context.Context, req *kmsg.OffsetCommitRequest) (*kmsg.OffsetCommitResponse, error) {
+	// The lock is held until the offsets are written: otherwise a member that
+	// passed the check could be fenced (expired, rebalanced away) before its
+	// write lands and overwrite the commit of the partition's new owner.
 	c.mu.Lock()
+	defer c.mu.Unlock()
 	state, err := c.loadGroupIfMissing(ctx, req.Group)
 	if err != nil {
-		c.mu.Unlock()
 		return nil, err
 	}
 
@@ -372,7 +375,6 @@ func (c *GroupCoordinator) OffsetCommit(ctx context.Context, req *kmsg.OffsetCom
 	} else if req.Generation != state.generationID {
 		groupErr = protocol.ILLEGAL_GENERATION
 	}
-	c.mu.Unlock()
 
 	resp := kmsg.NewPtrOffsetCommitResponse()
 	resp.Topics = make([]kmsg.OffsetCommitResponseTopic, 0, len(req.Topics))
